@@ -42,6 +42,7 @@ func (w *waitGroup[T]) Add(elements ...T) {
 	// then add the elements (and correct the counter if the elements are already present)
 	for _, element := range elements {
 		if !w.pendingElements.Add(element) {
+			verifWaitGroupAddDuplicate()
 			w.pendingElementsCounter.Add(-1)
 		}
 	}
